@@ -261,6 +261,12 @@ CompSym(mt, x) == Encode(mt, {CompB(mt, b) : b \in Resolve(mt, x)})
 CompStr(mt, s) == [i \in 1..Len(s) |-> CompSym(mt, s[i])]
 RcStr(mt, s)   == [i \in 1..Len(s) |-> CompSym(mt, s[Len(s) + 1 - i])]
 
+(* how the caller hands the symbols over: plain text, list / tuple of characters, bytes, an array of *)
+(* alphabet indices, or a sequence object (old-style view-backed, old-style array-backed, new-style). *)
+ArgReprs == {"str", "list", "tuple", "bytes", "ndarray", "old-seq", "old-array-seq", "new-seq"}
+ComplementAs(mt, s, repr) == CompStr(mt, s)     \* the representation does not enter
+RcAs(mt, s, repr)         == RcStr(mt, s)
+
 (* the conventional complement table, written out independently of the definition above *)
 CompTable(mt, x) == LET t == TU(mt) IN
     CASE x = "A" -> t   [] x = t -> "A"   [] x = "C" -> "G" [] x = "G" -> "C"
@@ -426,13 +432,16 @@ EncodeA == EncodeT /\ Log("Encode", <<>>, Encode(inp.mt, inp.set))
 
 (* moltype.complement(str), moltype.rc(str), Sequence.complement(), Sequence.rc() *)
 RcStrT == inp.kind = "str" /\ Valid(inp) /\ Same
-(* and the two-step forms x.rc().complement(), x[::-1].complement(), x.complement().rc(), x.rc().rc() *)
+(* and the two-step forms x.rc().complement(), x[::-1].complement(), x.complement().rc(), x.rc().rc().  *)
+(* The moltype-level operations take their argument in several REPRESENTATIONS (ArgReprs); the answer *)
+(* is a function of the symbols alone, so the table-derived string is expected for every one of them. *)
 RcStrA == RcStrT /\ Log("RcStr", <<>>,
               [comp    |-> CompStr(inp.mt, inp.s),
                rc      |-> RcStr(inp.mt, inp.s),
                rc_comp |-> CompStr(inp.mt, RcStr(inp.mt, inp.s)),
                comp_rc |-> RcStr(inp.mt, CompStr(inp.mt, inp.s)),
-               rc_rc   |-> RcStr(inp.mt, RcStr(inp.mt, inp.s))])
+               rc_rc   |-> RcStr(inp.mt, RcStr(inp.mt, inp.s)),
+               byrepr  |-> [r \in ArgReprs |-> [comp |-> ComplementAs(inp.mt, inp.s, r), rc |-> RcAs(inp.mt, inp.s, r)]]])
 
 ProtSymT == inp.kind = "psym" /\ Same
 ProtSymA == ProtSymT /\ Log("ProtSym", <<>>, ProtResolve(inp.s[1]))
@@ -488,6 +497,13 @@ RcInvolution ==
     /\ inp.kind = "str" => /\ RcStr(inp.mt, RcStr(inp.mt, inp.s)) = inp.s
                            /\ CompStr(inp.mt, CompStr(inp.mt, inp.s)) = inp.s
                            /\ RcStr(inp.mt, inp.s) = Rev(CompStr(inp.mt, inp.s))
+
+(* whatever the representation of the argument, complement / rc are the table-derived strings *)
+ReprIndependent ==
+    inp.kind = "str" =>
+        \A r \in ArgReprs :
+            /\ ComplementAs(inp.mt, inp.s, r) = [i \in 1..Len(inp.s) |-> CompTable(inp.mt, inp.s[i])]
+            /\ RcAs(inp.mt, inp.s, r) = Rev([i \in 1..Len(inp.s) |-> CompTable(inp.mt, inp.s[i])])
 
 (* complementing a reverse complement (in either order) only reverses *)
 ComplementRcLaw ==
